@@ -440,6 +440,32 @@ func (g *Gen) loopEnv(li *loopInfo, st *State, phiVals map[string]Val, blk *ssa.
 	for n, v := range phiVals {
 		env.vars[n] = v
 	}
+	// rangeslice: the slice a `for ... range slice` loop iterates over (often an unnamed call result); found through
+	// the compiler-generated guard rangeindex+1 < len(slice) in the loop header
+	if li.header != nil {
+		for _, in := range li.header.Instrs {
+			b, ok := in.(*ssa.BinOp)
+			if !ok || b.Op != token.LSS {
+				continue
+			}
+			inc, ok := b.X.(*ssa.BinOp)
+			if !ok || inc.Op != token.ADD {
+				continue
+			}
+			if phi, ok := inc.X.(*ssa.Phi); !ok || phi.Comment != "rangeindex" {
+				continue
+			}
+			if call, ok := b.Y.(*ssa.Call); ok {
+				if bi, ok := call.Call.Value.(*ssa.Builtin); ok && bi.Name() == "len" && len(call.Call.Args) == 1 {
+					if _, done := g.vals[call.Call.Args[0]]; done {
+						if _, isSlice := call.Call.Args[0].Type().Underlying().(*types.Slice); isSlice {
+							env.vars["rangeslice"] = g.val(call.Call.Args[0])
+						}
+					}
+				}
+			}
+		}
+	}
 	// iterators: visitedN refers to the N-th map range of the function
 	for i, r := range g.iterOrd {
 		it := g.iters[r]
